@@ -21,7 +21,8 @@ STATS = {"blocked_acquires": 0, "deadlocks": 0}
 
 
 class SimDeadlock(BaseException):
-    """Every runnable thread waits for a lock: the run is inconclusive."""
+    """Every thread that could still run waits for a lock (or a thread waits for a
+    lock nobody will release): in a real execution this call would never return."""
 
 
 def _sim_thread_index():
@@ -49,8 +50,13 @@ class _SimLockBase:
             STATS["blocked_acquires"] += 1
             spins += 1
             if spins > 100000 or not baton.lock_blocked(me):
+                baton.lock_acquired(me)
+                if timeout is not None and timeout >= 0:
+                    return False      # the timeout expires (in virtual time)
                 STATS["deadlocks"] += 1
                 raise SimDeadlock()
+        if spins:
+            baton.lock_acquired(me)
         return True
 
     __enter__ = acquire
